@@ -84,9 +84,12 @@ def _canon_val(fd, val):
             for k, v in val.items()))
     if getattr(fd, 'is_repeated', None) if hasattr(fd, 'is_repeated') \
             else fd.label == 3:
+        # order-insensitive: the order of elements that are created in the
+        # same batch (jobs of tasks submitted together, ...) follows set
+        # iteration over objects, i.e. memory addresses
         if fd.message_type is not None:
-            return tuple(_canon_msg(v) for v in val)
-        return tuple(val)
+            return tuple(sorted((_canon_msg(v) for v in val), key=repr))
+        return tuple(sorted(val))
     if fd.message_type is not None:
         return _canon_msg(val)
     return val
